@@ -87,7 +87,7 @@ fn check_funding(w: &World, prev: &mut [u128; 8], step: usize, rec: &mut Rec) ->
     Ok(())
 }
 
-fn check_borrowing(w: &World, prev_factors: &mut (u128, u128), step: usize, rec: &mut Rec) -> Result<(), String> {
+fn check_borrowing(w: &World, prev_factors: &mut (u128, u128), step: usize, rec: &mut Rec, kink_optimum_ge_unit: bool) -> Result<(), String> {
     let m = &w.market;
     let f = (m.borrowing_factor.long_amount, m.borrowing_factor.short_amount);
     if f.0 < prev_factors.0 || f.1 < prev_factors.1 {
@@ -115,6 +115,11 @@ fn check_borrowing(w: &World, prev_factors: &mut (u128, u128), step: usize, rec:
                 let msg = e.to_string();
                 if msg.contains("total pending borrowing fees") {
                     return Err(format!("step {step}: total_pending_borrowing_fees({is_long}) failed: {msg}"));
+                }
+                // with the optimal usage at or above 100 % the kink formula has no branch above the kink:
+                // the computation must not fail there (usage may exceed 100 % after price moves)
+                if msg.contains("kink model") && kink_optimum_ge_unit {
+                    return Err(format!("step {step}: total_pending_borrowing_fees({is_long}) failed in the kink model although the optimal usage is >= 100 %: {msg}"));
                 }
                 rec.class("pending_fees_other_error");
             }
@@ -231,7 +236,7 @@ pub fn check_history(h: &History, rec: &mut Rec, which: Which) -> Result<(), Str
         }
         match which {
             Which::C07 => check_totals(&w, step)?,
-            Which::C13 => check_borrowing(&w, &mut factors, step, rec)?,
+            Which::C13 => check_borrowing(&w, &mut factors, step, rec, h.cfg.kink_long.0 >= UNIT)?,
             Which::C09 => {}
             Which::C12 => check_funding(&w, &mut findex, step, rec)?,
         }
@@ -312,6 +317,28 @@ fn c09_history() -> impl proptest::strategy::Strategy<Value = History> {
     })
 }
 
+/// C13 histories: `position_heavy`, and in one case out of four a kink model whose optimal usage is exactly
+/// or above 100 % together with large adverse index moves after the opens, so that the usage factor of a side
+/// exceeds 100 % (reserved value grows with the index price, the pool does not).
+fn c13_history() -> impl proptest::strategy::Strategy<Value = History> {
+    use proptest::prelude::*;
+    (position_heavy(24), 0u8..4, prop_oneof![Just(UNIT), (UNIT + 1)..=(2 * UNIT)], 1u128..=1_000_000_000_000, 500i16..=2500, 0u8..NUM_POSITIONS as u8)
+        .prop_map(|(mut h, sel, optimum, base, up_bp, pos)| {
+            if sel == 0 {
+                h.cfg.kink_long = (optimum, base, base.saturating_mul(3));
+                h.cfg.kink_short = (optimum, base, base.saturating_mul(3));
+                // open close to the reserve limit, then move the index price so that the reserved value outgrows it
+                let (is_long, coll_long) = position_sides(pos as usize);
+                let _ = coll_long;
+                h.ops.insert(0, Op::Increase { pos, collateral: 2_000_000_000, size_usd: 40 });
+                h.ops.insert(1, Op::MovePrice { bp: if is_long { up_bp } else { -up_bp / 2 }, index_only: false });
+                h.ops.insert(2, Op::Advance { secs: 3600 });
+                h.ops.insert(3, Op::UpdateFees);
+            }
+            h
+        })
+}
+
 pub fn run_c07(ctx: &mut Ctx) {
     ctx.rule("cases = market configuration + prices + history (<= 30 ops) of increases, partial/full/over-size/capped decreases, collateral-only withdrawals, dust decreases, liquidation attempts, price moves and clock advances over 6 positions covering {long,short} x {long,short collateral}; oracle = after every operation (successful, or failed and reverted) each side's open interest in USD, in tokens and collateral sum per collateral token equal the sums over the position table, and a removed position is all-zero; non-trivial = history with both a partial decrease and a full close");
     let n = ctx.cases(20_000, 1_000_000);
@@ -332,9 +359,9 @@ pub fn run_c09(ctx: &mut Ctx) {
 }
 
 pub fn run_c13(ctx: &mut Ctx) {
-    ctx.rule("cases = same generator as C07 (kink and exponent borrowing models, skip-smaller-side on/off, clock advances up to 30 days); oracle = cumulative borrowing factor per side never decreases, total_borrowing(side) == sum over open positions of floor(size*factor_at_last_settlement/UNIT) exactly, total_pending_borrowing_fees never fails in its subtraction; non-trivial = history with at least one decrease");
+    ctx.rule("cases = same generator as C07 (kink and exponent borrowing models, skip-smaller-side on/off, clock advances up to 30 days); oracle = cumulative borrowing factor per side never decreases, total_borrowing(side) == sum over open positions of floor(size*factor_at_last_settlement/UNIT) exactly, total_pending_borrowing_fees never fails in its subtraction, nor inside the kink model when the optimal usage is configured at or above 100 % (usage can exceed 100 % after price moves); non-trivial = history with at least one decrease");
     let n = ctx.cases(20_000, 1_000_000);
-    ctx.search("borrowing", n, || position_heavy(30), |h, rec| check_history(h, rec, Which::C13));
+    ctx.search("borrowing", n, c13_history, |h, rec| check_history(h, rec, Which::C13));
     ctx.floor("borrowing:factor_grew", 500);
     ctx.floor("borrowing:positions_at_different_factors", 100);
 }
